@@ -90,6 +90,7 @@ def run(ctx, replay):
     byid = {c["id"]: c for c in caselist}
     out = ctx.path("c10_inproc.ndjson")
     ctx.overlay_test("rtcmfilter", cases, out, timeout=1500)
+    crash = ctx.overlay_crash
     events = vlib.read_ndjson(out)
     for e in events:
         e["path"] = "in-process"
@@ -122,6 +123,8 @@ def run(ctx, replay):
         e = events[i - 1]
         rec = dict(path=e["path"], ret=e["ret"][:30], display=e["display"], record=e["record"])
         ctx.violation(rec, dict(event={k: v for k, v in e.items() if k not in ("in",)}, case=byid.get(e["id"])))
+    if crash:
+        ctx.violation(dict(kind="filter-dies", what=crash["what"][:80]), dict(crash=crash))
     return ctx.finish(
         level="model_checking",
         rule="one case = (input stream, display on/off, record on/off, chunking of the input) through rtcmfilter's entry point in-process and through the built binary "
